@@ -160,6 +160,23 @@ def decTag (r12 : Bool) (bs : List Nat) : Except PyErr (BTag × List Nat) := do
     | b :: r2 => .ok (⟨code, .int b⟩, r2)
   | .str => do let (s, r2) ← cstr r; .ok (⟨code, .str s⟩, r2)
 
+/-- the `while index < data_length` loop of `binary_tags_loader` (one tag per unit of fuel) -/
+def decAll (r12 : Bool) : Nat → List Nat → Except PyErr (List BTag)
+  | 0, _ => .ok []
+  | fuel + 1, bs =>
+    if bs.isEmpty then .ok [] else do
+      let (t, r) ← decTag r12 bs
+      let ts ← decAll r12 fuel r
+      .ok (t :: ts)
+
+/-- `write_tag2` for every tag of a list, concatenated -/
+def encAll (r12 : Bool) : List BTag → Except PyErr (List Nat)
+  | [] => .ok []
+  | t :: r => do
+    let a ← encTag r12 t
+    let b ← encAll r12 r
+    .ok (a ++ b)
+
 /-! ### decimal text of integers (`"%3d" % code`, `"%s" % int`, `int(text)`) and hex text -/
 
 def digitChar (d : Nat) : Nat := 48 + d
